@@ -136,8 +136,45 @@ class C11(Prop):
                         return True
             return False
 
+        def sharp(g):
+            """a vertex (of a line, of the closing point of a closed line, of a polygon ring) whose angle, in the space scaled by the
+            buffers as buffer_shapely_geometry scales it, is below 25 degrees: GEOS bevels a mitre join beyond the mitre limit 5
+            (angles below 2*asin(1/5) = 23.07 degrees)"""
+            import math
+
+            sx = float(c["tb"]) if c["tb"] > 0 else 1e-9
+            sy = float(c["fb"]) if c["fb"] > 0 else 1e-9
+            t = g["type"]
+            if t == "LineString":
+                chains = [(g["coordinates"], False)]
+            elif t == "MultiLineString":
+                chains = [(l, False) for l in g["coordinates"]]
+            elif t == "Polygon":
+                chains = [(r, True) for r in g["coordinates"]]
+            elif t == "MultiPolygon":
+                chains = [(r, True) for poly in g["coordinates"] for r in poly]
+            else:
+                return False
+            for l, ring in chains:
+                pts = [(float(p[0]) / sx, float(p[1]) / sy) for i, p in enumerate(l) if i == 0 or p != l[i - 1]]
+                closed = ring or (len(pts) > 2 and pts[0] == pts[-1])
+                if closed and pts[0] == pts[-1]:
+                    pts = pts[:-1]
+                n = len(pts)
+                idx = range(n) if closed else range(1, n - 1)
+                for i in idx:
+                    a, b, d = pts[(i - 1) % n], pts[i], pts[(i + 1) % n]
+                    u, v = (a[0] - b[0], a[1] - b[1]), (d[0] - b[0], d[1] - b[1])
+                    nu, nv = math.hypot(*u), math.hypot(*v)
+                    if nu == 0 or nv == 0:
+                        continue
+                    if (u[0] * v[0] + u[1] * v[1]) / (nu * nv) > math.cos(math.radians(25)):
+                        return True
+            return False
+
         def fail(kind, what, **a):
             fails.append({"kind": kind, "what": what, "attrs": dict(a, type=c["kind"], shapely_branch=shapely_branch, has_reversal=reversal(o["norm"]),
+                                                                   sharp_vertex=sharp(o["norm"]),
                                                                    call_site="buffer_shapely_geometry" if shapely_branch else "closed-form")})
 
         tb, fb = c["tb"], c["fb"]
@@ -155,7 +192,8 @@ class C11(Prop):
         if not (bo[0] >= 0 and 0 <= bo[1] and bo[3] <= MAXF):
             fail("left-domain", f"result bounds {[float(x) for x in bo]} leave the valid domain")
         if not o["covers"]:
-            fail("not-superset", f"result does not contain the original (uncovered, in buffer units: {o.get('uncovered_scaled')})")
+            fail("not-superset", f"result does not contain the original (uncovered, in buffer units: {o.get('uncovered_scaled')})",
+                 uncovered=o.get("uncovered_scaled"))
         want = [max(bi[0] - tb, 0), max(bi[1] - fb, 0), bi[2] + tb, min(bi[3] + fb, MAXF)]
         if not shapely_branch:
             if bo != want:
